@@ -3,6 +3,7 @@
 From Coq Require Import List Arith Bool PeanoNat Lia.
 Import ListNotations.
 Require Import TL.Model.Core TL.Model.CoreTables TL.Model.CoreC03.
+Require TL.Proofs.CoreHash.
 
 (* ------------------------------------------------------------------ generic lemmas *)
 Lemma bind_ok : forall {A B} (r : res A) (f : A -> res B) (b : B),
@@ -347,11 +348,13 @@ Proof.
   - (* None *) rewrite (none_u_none _ _ L _ _ H). apply pv_eqb_refl.
   - (* seq *)
     apply bind_ok in H. destruct H as [d [_ H]]. apply bind_ok in H. destruct H as [vs [_ H]].
+    apply (proj1 (TL.Proofs.CoreHash.seq_step_ok_iff _ _ _ _ _)) in H.
     apply bind_ok in H. destruct H as [rs [Hrs H]]. apply construct_seq_ok in H. destruct H as [l [Hv Hl]]. subst v.
     rewrite seqkind_eqb_refl. cbn [andb]. apply forallb_forall. intros r Hr.
     destruct (mapM_ok_all _ _ _ Hrs r (Hl r Hr)) as [x' [_ Hx']]. exact (IH _ _ _ Hx').
   - (* map *)
     apply bind_ok in H. destruct H as [d [_ H]]. apply bind_ok in H. destruct H as [kvs [_ H]].
+    apply (proj1 (TL.Proofs.CoreHash.map_step_ok_iff _ _ _ _ _)) in H.
     apply bind_ok in H. destruct H as [rs [Hrs H]]. unfold construct_map in H.
     destruct (existsb (fun kv => unhashable rt (fst kv)) rs); [discriminate|]. inversion H; subst v.
     rewrite dictkind_eqb_refl. cbn [andb]. apply forallb_forall. intros kv Hkv.
